@@ -1,8 +1,10 @@
 import CJ.Drv.Loop
 import CJ.Drv.Codec
+import CJ.Drv.Alive
 /-! Driver for C15: the codec models. -/
 open CJ.Drv
 
 def main : IO Unit := runDriver fun
   | "codec" :: args => Codec.handle args
+  | "alive" :: args => Alive.handle args
   | _ => none
